@@ -139,7 +139,8 @@ def finish(ctx, t0):
     lines = []
     if new:
         v = new[0]
-        rp = write_replay(ctx.pid, {"property": ctx.pid, "seed": ctx.seed, "tier": ctx.tier, "kind": "failing-input", "violation": v, "other_new_violations": [x["key"] for x in new[1:20]], "broken": ctx.broken})
+        rp = write_replay(ctx.pid, {"property": ctx.pid, "seed": ctx.seed, "tier": ctx.tier, "kind": "failing-input", "violation": v, "other_new_violations": [x["key"] for x in new[1:20]],
+                                    "other_new_violation_details": [{"key": x["key"], "what": x["what"][:600], "replay": x["replay"]} for x in new[1:6]], "broken": ctx.broken})
         lines.append("VIOLATION property=%s replay=%s" % (ctx.pid, rp))
         for x in new[:10]:
             lines.append("  new violation: %s -- %s" % (x["key"], x["what"][:300]))
